@@ -3,7 +3,7 @@
 # (/tmp/sv/verif = copy of /verif, /tmp/sv/repo = scratch worktree of /repo), so that /repo and /verif/lean stay untouched
 # while other work goes on; the result (patch.diff, demo.py, meta.json) is copied back to /verif/seeded/<name>.
 set -e
-SV=/tmp/sv
+SV=${SVDIR:-/tmp/sv}
 mkdir -p $SV
 [ -d $SV/repo ] || git -C /repo worktree add --detach $SV/repo HEAD >/dev/null
 [ -d $SV/verif ] || cp -a /verif $SV/verif
